@@ -10,7 +10,7 @@ R : GEN_Cycle scenarios: for every program of the corpus (cycle count n measured
 import json, os
 from lib.common import *
 
-PROGRAMS = [
+BASE_PROGRAMS = [
     ("loop_forever", "begin push.1 while.true push.1 end end", None),
     ("rep30", "begin repeat.30 push.1 drop end end", None),
     ("rep47", "begin repeat.47 push.7 drop end end", None),
@@ -24,6 +24,11 @@ PROGRAMS = [
 
 
 def run(tier, replay=None):
+    global PROGRAMS
+    from lib import progen
+    # generated programs of every feature class (their cycle counts are measured; limits are placed around them)
+    extra = progen.corpus(seed() + 15, 80 if tier == "thorough" else 8, nstmts=12 if tier == "thorough" else 8)
+    PROGRAMS = [(n, s_, k, []) for n, s_, k in BASE_PROGRAMS] + [("gen%d-%s" % (i, p["class"]), p["src"], p.get("kernel"), p["inputs"]) for i, p in enumerate(extra)]
     ck = Check("C15", tier)
     ck.rule = "a case = (program, limit m, expected-cycles hint e) or an option set (max, expected); distinct = distinct tuples"
     wd = workdir("C15", clean=True)
@@ -34,13 +39,13 @@ def run(tier, replay=None):
     # measure the cycle count of every program (unlimited run)
     meas = os.path.join(wd, "measure.ndjson")
     with open(meas, "w") as f:
-        for name, src, _ in PROGRAMS[1:]:
-            f.write(json.dumps({"src": src, "inputs": [], "adv": []}) + "\n")
+        for name, src, kern, inputs in PROGRAMS[1:]:
+            f.write(json.dumps({"src": src, "kernel": kern, "inputs": [limbs(x) for x in inputs], "adv": []}) + "\n")
     need = {}
     for prof in ("release", "checked"):
         outp = os.path.join(wd, "measure_%s.ndjson" % prof)
         run_harness(prof, ["replay-masm", meas, outp])
-        for (name, src, _), l in zip(PROGRAMS[1:], open(outp)):
+        for (name, src, _, _), l in zip(PROGRAMS[1:], open(outp)):
             res = json.loads(l)
             if res["outcome"] != "ok":
                 raise ToolError("corpus program %s does not run: %s" % (name, res))
@@ -58,10 +63,10 @@ def run(tier, replay=None):
     for s in table["runs"]:
         by_n.setdefault(s["n"], []).append(s)
     scs, recs = [], []
-    for name, src, _ in PROGRAMS:
+    for name, src, kern, inputs in PROGRAMS:
         for s in by_n[need[name]]:
             scs.append((name, src, s))
-            recs.append({"src": src, "inputs": [], "adv": [], "max_cycles": s["m"], "expected_cycles": s["e"]})
+            recs.append({"src": src, "kernel": kern, "inputs": [limbs(x) for x in inputs], "adv": [], "max_cycles": s["m"], "expected_cycles": s["e"]})
     for o in table["options"]:
         scs.append(("options", None, o))
         recs.append({"src": "begin push.1 drop end", "inputs": [], "adv": [], "max_cycles": o["max"], "expected_cycles": o["expected"]})
